@@ -267,6 +267,23 @@ def run_c09(tier, seed):
         docs = [TJ.to_text(ro_tree)] + [TJ.to_text(m) for _, m in plan] + [TJ.to_text(B.ro_delete(message_id='99'))]
         for strict in (False, True):
             jobs.append(('fault-then-valid: ' + name, docs, False, strict, 'strings' if pi % 5 else 'files'))
+    # messages whose IDs are spread over several element_source blocks, a later block holding an unknown / blank / repeated
+    # ID: the failing message must not be applied in part (strict: the result is that of the earlier messages)
+    st5 = lambda: B.ro_doc([B.story(f'S{k}', [B.item(f'i{k}a'), B.item(f'i{k}b'), B.item(f'i{k}c')]) for k in range(1, 6)], message_id='1')
+    blocks = [('story move, unknown in 2nd block', B.ea('MOVE', {'storyID': 'S1'}, [B.ids('storyID', ['S4']), B.ids('storyID', ['ZZ'])], message_id='11')),
+              ('story move, blank in 3rd block', B.ea('MOVE', {'storyID': 'S2'}, [B.ids('storyID', ['S5']), B.ids('storyID', ['S3']), B.ids('storyID', [B.BLANK])], message_id='12')),
+              ('story move, repeat in 2nd block', B.ea('MOVE', {'storyID': 'S1'}, [B.ids('storyID', ['S3', 'S4']), B.ids('storyID', ['S3'])], message_id='13')),
+              ('story move, target in 2nd block', B.ea('MOVE', {'storyID': 'S2'}, [B.ids('storyID', ['S5']), B.ids('storyID', ['S2'])], message_id='14')),
+              ('story delete over blocks, unknown in 2nd', B.ea('DELETE', B.ABSENT, [B.ids('storyID', ['S5']), B.ids('storyID', ['ZZ', 'S4'])], message_id='15')),
+              ('item delete over blocks', B.ea('DELETE', {'storyID': 'S1'}, [B.ids('itemID', ['i1a']), B.ids('itemID', ['zz', 'i1c'])], message_id='16')),
+              ('valid story move over blocks', B.ea('MOVE', {'storyID': 'S1'}, [B.ids('storyID', ['S3']), B.ids('storyID', ['S2'])], message_id='17'))]
+    for k in range(len(blocks)):
+        docs_b = [TJ.to_text(st5())] + [TJ.to_text(m) for _, m in blocks[k:] + blocks[:k]][:4]
+        # (message IDs must ascend in the collection: renumber)
+        docs_b = [docs_b[0]] + [__import__('re').sub(r'<messageID>\d+</messageID>', f'<messageID>{20 + j}</messageID>', t, count=1) for j, t in enumerate(docs_b[1:])]
+        docs_b.append(TJ.to_text(B.ro_delete(message_id='99')))
+        for strict in (False, True):
+            jobs.append((f'element_source blocks: {blocks[k][0]} first', docs_b, False, strict, 'strings'))
     # collections of exactly 63, 64, 65, 127, 128, 129 messages after the roCreate (batch sizes a loop might work in)
     for nmsg in (63, 64, 65, 127, 128, 129):
         docs_n = [TJ.to_text(B.ro_doc([B.story('A')], message_id='1'))]
@@ -607,6 +624,67 @@ def run_stage_checks(oc, pid, tier, seed):
                 oc.failing.append({'kind': 'collection-stages', 'docs': h['docs'], 'strict': strict, 'label': f'hist seed={h["seed"]} strict={strict}',
                                    'spec': '; '.join(bad), 'impl': st})
             oc.nontrivial.add(stable_hash(['stages', h['docs'], strict]))
+    if pid == 'C07':
+        completed_collections_check(oc, pid)
+
+
+def completed_collections_check(oc, pid):
+    """C07 in collection mode: a collection whose roCreate document is a running order that was completed and written
+    out earlier refuses every later message - strict: MosCompletedMergeError at the first one; non-strict: one warning per
+    message - and its running order stays as it was; the same for a second merge() of a collection that has completed."""
+    done = TJ.to_text(B.ro_doc([B.story('A', [B.item('a1')]), B.story('B', [])], message_id='1')).replace(
+        '</mos>', '<mosromgrmeta><roDelete><roID>RO1</roID></roDelete></mosromgrmeta></mos>')
+    late = [TJ.to_text(B.story_append([B.story('N')], message_id='5')), TJ.to_text(B.item_delete('A', ['a1'], message_id='6')),
+            TJ.to_text(B.ro_replace([B.story('R')], message_id='7')), TJ.to_text(B.ready_to_air(message_id='8')),
+            TJ.to_text(B.ro_delete(message_id='9'))]
+    for k in (1, 2, len(late)):
+        for via in ('strings', 'files'):
+            for strict in (False, True):
+                docs = [done] + late[:k]
+                o = impl_collection(docs, True, strict, via=via)
+                oc.evaluations += 1
+                oc.in_domain += 1
+                oc.count('completed-collection')
+                run = o.get('run') or {}
+                bad = []
+                if o['err'] is not None or not run:
+                    bad.append(f'the collection over a completed roCreate document could not be built or merged: {o["err"]}')
+                else:
+                    if run['ro'] != TJ.parse(done):
+                        bad.append('the completed running order was changed by a later message')
+                    if strict and run['err'] != 'MosCompletedMergeError':
+                        bad.append(f'strict merge of late messages into a completed running order: expected MosCompletedMergeError, got {run["err"]}')
+                    if not strict and (run['err'] is not None or run['warns'].count('MosMergeNonStrictWarning') != k):
+                        bad.append(f'non-strict merge of {k} late messages: expected {k} MosMergeNonStrictWarning and no error, got {run["warns"]} / {run["err"]}')
+                if bad:
+                    oc.failing.append({'kind': 'collection-stages', 'docs': docs, 'strict': strict, 'label': f'completed roCreate document + {k} late messages via {via} strict={strict}',
+                                       'spec': '; '.join(bad), 'impl': {'err': o['err'], 'run_err': run.get('err'), 'warns': run.get('warns')}})
+    # a collection that has completed, merged again: every message is now late
+    from mosromgr.moscollection import MosCollection
+    from . import impl
+    full = [TJ.to_text(B.ro_doc([B.story('A', [B.item('a1')])], message_id='1')), late[0], late[1], TJ.to_text(B.ro_delete(message_id='9'))]
+    for strict in (False, True):
+        with warnings.catch_warnings():
+            warnings.simplefilter('ignore')
+            mc = MosCollection.from_strings(full)
+            mc.merge()
+        before = str(mc)
+        err = None
+        with warnings.catch_warnings(record=True) as w:
+            warnings.simplefilter('always')
+            try:
+                mc.merge(strict=strict)
+            except Exception as e:  # noqa: BLE001
+                err = impl.err_name(e)
+        ws = impl.lib_warnings(w)
+        oc.evaluations += 1
+        oc.in_domain += 1
+        oc.count('completed-collection:second-merge')
+        ok = (err == 'MosCompletedMergeError') if strict else (err is None and ws.count('MosMergeNonStrictWarning') == 3)
+        if not ok or str(mc) != before or not mc.completed:
+            oc.failing.append({'kind': 'collection-stages', 'docs': full, 'strict': strict, 'label': f'second merge() of a completed collection strict={strict}',
+                               'spec': 'a completed collection merged again refuses every message (MosCompletedMergeError / one warning each) and stays as it is',
+                               'impl': {'err': err, 'warns': ws, 'unchanged': str(mc) == before}})
 
 
 # ---- C11 ------------------------------------------------------------------------------------------
